@@ -140,7 +140,7 @@ let () =
       (try
         let cps = Array.of_list (decode_utf8 line) in
         let c = parse_sexp cps in
-        print_sexp b (run_case c)
+        print_sexp b (run_case2 c)
       with
       | Parse_error m -> Buffer.clear b; Buffer.add_string b ("(driver-error \"parse: " ^ m ^ "\")")
       | Stack_overflow -> Buffer.clear b; Buffer.add_string b "(driver-error \"stack overflow\")"
